@@ -225,6 +225,14 @@ func readStage(fname string, r *rand.Rand, n int) (core.Stage, error) {
 					}
 				}
 			}
+			// every schema node is read at least once under each parameter kind
+			for i, t := range coverTrees(f, r) {
+				ps := []dread.Params{{Depth: 1 + i%3}, {Content: "config"}, {Content: "nonconfig"}, {Trim: true}, {Depth: 4, Trim: true}}
+				for k, p := range ps {
+					emit(core.Case{"kind": "read", "fixture": fname, "store": stores[(i+k)%len(stores)], "tree": t, "at": abs.Path{},
+						"p": p, "via": []string{"find", "constrain"}[(i+k)%2]})
+				}
+			}
 			for i := 0; i < n; i++ {
 				t := g.Subtree(abs.Path{})
 				store := stores[i%len(stores)]
